@@ -279,6 +279,24 @@ def run_orders(ctx, prop):
                         res.violations.append({"kind": "balances reported at the head after an arrival differ from the replay of "
                                                        "the head's chain", "order": [x.serialize().hex() for x in order],
                                                "arrived": order.index(b) + 1})
+            if prop != "C04" and oi == 0 and not tall:
+                # readers of the reported state do not change it: a wallet over the tree's keys prepares two payments on this very
+                # state object (the second one skips what the first one used) before the state is compared
+                from skepticoin.wallet import Wallet, create_spend_transaction
+                from skepticoin.signing import SECP256k1PublicKey
+                w_ = Wallet.empty()
+                for i_, pk_ in enumerate(keys.pks):
+                    w_.keypairs[pk_] = keys.sks[i_].to_string()
+                before_reads = chain.state_digest(cs, full=True)
+                for amount_ in (3, 2, 1):
+                    try:
+                        create_spend_transaction(w_, cs, amount_, 0, SECP256k1PublicKey(keys.pks[0]), SECP256k1PublicKey(keys.pks[-1]))
+                    except Exception:
+                        pass
+                if chain.state_digest(cs, full=True) != before_reads:
+                    res.violations.append({"kind": "the ledger state reported for stored blocks changed although no block was added: a "
+                                                   "wallet prepared payments on that state", "order": [b.serialize().hex() for b in order]})
+                res.count("wallet_reads_between_arrivals_and_digest")
             d = chain.state_digest(cs, full=(prop != "C04"))
             ops.append("digest s " + ("full" if prop != "C04" else "light"))
             impl.append(d)
